@@ -43,7 +43,7 @@ theorem plookup_pset_ne (p : PFields) (k j : Nat) (w : PVal) (h : j ≠ k) :
   cases plookup p j <;> rfl
 
 theorem plookup_pset_isSome (p : PFields) (k j : Nat) (w : PVal) :
-    (plookup (pset p k w) j).isSome = (decide (k = j) || (plookup p j).isSome) := by
+    (plookup (pset p k w) j).isSome = ((k == j) || (plookup p j).isSome) := by
   by_cases h : k = j
   · subst h; simp [plookup_pset_self]
   · have h' : j ≠ k := fun e => h e.symm
